@@ -90,6 +90,61 @@ Theorem c04_counts : forall cf ver w s ilen dw e, parseM cf ver w = POk s -> emi
   length (items (m_exports (ps_m s))) = length (flat_map exports_of w).
 Proof. exact structure_counts. Qed.
 
+(* data segments (through the data-count pre-reservation path), the data-count section, no start function invented,
+   and function signatures through the de-duplicated, sorted type section *)
+From WV Require Import Proofs.Structure2 Proofs.Names.
+Theorem c04_data_segments :
+  forall (cf : config) (ver : nstr) (w : wmod) (s : pst) (ilen : wins -> N) 
+           (dw : list wsec) (e : emitted) (l : list wdata),
+         parseM cf ver w = POk s ->
+         emitM (ps_m s) ilen dw = Ok e ->
+         stream_wf w = true ->
+         In (S_Data l) w ->
+         dc_before w l ->
+         l <> [] -> exists ds : list wdata, In (S_Data ds) (em_secs e) /\ Forall2 (data_rt (em_x2i e)) l ds.
+Proof. exact structure_data. Qed.
+
+Theorem c04_data_count :
+  forall (cf : config) (ver : nstr) (w : wmod) (s : pst) (ilen : wins -> N) 
+           (dw : list wsec) (e : emitted) (l : list wdata),
+         parseM cf ver w = POk s ->
+         emitM (ps_m s) ilen dw = Ok e ->
+         stream_wf w = true ->
+         In (S_Data l) w ->
+         dc_before w l ->
+         l <> [] ->
+         (forall n : N, ~ In (S_DataCount n) dw) ->
+         (forall n' : N, In (S_DataCount n') (em_secs e) -> n' = N.of_nat (length l)) /\
+         ((exists n' : N, In (S_DataCount n') (em_secs e)) <->
+          existsb is_passive l = true \/
+          (exists (p : N * mfunc) (lf : mlocalfunc),
+             In p (aiter (m_funcs (ps_m s))) /\ fn_kind (snd p) = FK_Local lf /\ uses_data lf = Ok true)).
+Proof. exact structure_data_count. Qed.
+
+Theorem c04_no_start_invented :
+  forall (cf : config) (ver : nstr) (w : wmod) (s : pst) (ilen : wins -> N) 
+           (dw : list wsec) (e : emitted),
+         parseM cf ver w = POk s ->
+         emitM (ps_m s) ilen dw = Ok e ->
+         (forall f : N, ~ In (S_Start f) w) ->
+         (forall f : N, ~ In (S_Start f) dw) -> forall f : N, ~ In (S_Start f) (em_secs e).
+Proof. exact structure_no_start. Qed.
+
+Theorem c04_function_signatures :
+  forall (cf : config) (ver : nstr) (w : wmod) (s : pst) (ilen : wins -> N) 
+           (dw : list wsec) (e : emitted),
+         parseM cf ver w = POk s ->
+         emitM (ps_m s) ilen dw = Ok e ->
+         dw_custom dw ->
+         forall (i : nat) (ti : N) (t : list valty * list valty) (j : N),
+         nth_error (flat_map sec_ftys w) i = Some ti ->
+         nth_error (flat_map types_of w) (N.to_nat ti) = Some t ->
+         get_idx (em_x2i e) S_func (N.of_nat i) = Ok j ->
+         exists tj : N,
+           nth_error (out_ftys e) (N.to_nat j) = Some tj /\ nth_error (out_types e) (N.to_nat tj) = Some t.
+Proof. exact structure_func_sigs. Qed.
+
+
 Print Assumptions c04_attr_table_local.
 Print Assumptions c04_attr_table_import.
 Print Assumptions c04_attr_memory_local.
@@ -107,3 +162,7 @@ Print Assumptions c04_start.
 Print Assumptions c04_no_start.
 Print Assumptions c04_elements.
 Print Assumptions c04_counts.
+Print Assumptions c04_data_segments.
+Print Assumptions c04_data_count.
+Print Assumptions c04_no_start_invented.
+Print Assumptions c04_function_signatures.
